@@ -24,6 +24,7 @@ import (
 	"verif/mc"
 
 	"github.com/makiuchi-d/gozxing"
+	"github.com/makiuchi-d/gozxing/oned"
 	qrdec "github.com/makiuchi-d/gozxing/qrcode/decoder"
 )
 
@@ -767,6 +768,7 @@ func main() {
 	run1DAsymmetric()
 	runBitmapHistories()
 	run1DContentSweep()
+	runRowSweep()
 	run1DHintCombos()
 	runFamily("QR (writer default quiet zone 4)", qrSpecs(), true)
 	runFamily("QR (MARGIN 0: the padding is the only quiet zone)", withMargin(qrSpecs(), 0), true)
@@ -786,6 +788,14 @@ func replay() {
 	}
 	l := chk.NewLocal()
 	defer l.Merge()
+	if c.Mode == "row-sweep" {
+		var rc rowSweepCase
+		mc.LoadReplay(chk.ReplayFile(), &rc)
+		od := oneDByName(rc.Sym)
+		fmt.Printf("replay row sweep %+v\n", rc)
+		rowSweepOne(l, od, od.mkReader().(oned.RowDecoder), rc.Content, true)
+		return
+	}
 	s, base, err := drawFitting(c.Spec)
 	if err != nil {
 		fmt.Println("cannot draw:", err)
